@@ -222,7 +222,12 @@ func parseFlat(c *cfg, ms []*lmetric) (*metric.BrokerBatchRows, error) {
 
 // parseInflux: ingestion/influx.Parse on line protocol text with precision=ms.
 func parseInflux(c *cfg, ns string, lines []string) (*metric.BrokerBatchRows, error) {
+	return parseInfluxP(c, ns, lines, "ms")
+}
+
+// parseInfluxP: the same with the request's precision parameter.
+func parseInfluxP(c *cfg, ns string, lines []string, precision string) (*metric.BrokerBatchRows, error) {
 	body := strings.Join(lines, "\n") + "\n"
-	req := &http.Request{Header: http.Header{}, Body: io.NopCloser(strings.NewReader(body)), URL: &url.URL{RawQuery: "precision=ms"}}
+	req := &http.Request{Header: http.Header{}, Body: io.NopCloser(strings.NewReader(body)), URL: &url.URL{RawQuery: "precision=" + precision}}
 	return influx.Parse(req, c.realEnriched(), heapCopy(ns), c.lim.real())
 }
